@@ -119,6 +119,35 @@ def is_int(q):
     return q is not None and q.denominator == 1
 
 
+def round6(q: Fraction) -> Fraction:
+    """q correctly rounded to six significant decimal digits, ties away from zero - in exact integer arithmetic
+    (no decimal context): the unique m*10^e with 10^5 <= m < 10^6 (or 10^6 after a carry) nearest to q."""
+    if q == 0:
+        return q
+    n, d = abs(q.numerator), q.denominator
+    e = (n.bit_length() - d.bit_length()) * 30103 // 100000 - 6     # first guess of the exponent of the sixth digit, then adjust
+    def scaled(e):                               # noqa: E306 - |q| / 10^e as a Fraction
+        return Fraction(n, d * 10 ** e) if e >= 0 else Fraction(n * 10 ** (-e), d)
+    while scaled(e) >= 10 ** 6:
+        e += 1
+    while scaled(e) < 10 ** 5:
+        e -= 1
+    m = rhu(scaled(e))
+    r = m * Fraction(10) ** e
+    return r if q > 0 else -r
+
+
+def chain6(off: Fraction, st: Fraction, c: Fraction) -> Fraction:
+    """The deterministic reading of 'six significant digits, ties upward' for the fractional path: every one of the four
+    operations off + nearest((c - off) / st) * st is followed by ONE correct rounding to six digits (round6).  Used only
+    where the tolerance band alone cannot decide (is a FormatError next to the largest double justified?); valid for
+    non-extreme metadata (no intermediate leaves decimal's normal exponent range)."""
+    d = round6(c - off)
+    q = round6(d / st)
+    m = round6(rhu(q) * st)
+    return round6(off + m)
+
+
 def spec(fmt, mn, mx, st, v):
     """What the property demands for a numeric format, from Fractions (mn/mx/st may be None).
 
@@ -158,5 +187,7 @@ def spec(fmt, mn, mx, st, v):
     if mn is not None and mx is not None and mn <= mx and ((mx - mn) / st).denominator == 1:
         out.update(lo=mn, hi=mx)
         # six-digit bounds are barriers for round-to-nearest: then membership is strict even on the rounded path
-        out["strict"] = st > 0 and all((sd := sigdigits(x)) is not None and sd <= 6 for x in (mn, mx, mx - mn, (mx - mn) / st))
+        # (an integer format whose bounds are not integers has no integer on its grid at all: there the hand-over to an int may
+        # leave the range by up to 1/2 - the non-strict check - which is what int_fractional_in_range assumes: integer bounds)
+        out["strict"] = st > 0 and (not integer_fmt or (is_int(mn) and is_int(mx))) and all((sd := sigdigits(x)) is not None and sd <= 6 for x in (mn, mx, mx - mn, (mx - mn) / st))
     return out
